@@ -315,7 +315,8 @@ def rule_C16(env):
                 val = lf["val"]
                 probs = contract(short, name, r, val, lf)
                 for p in probs:
-                    res.add("contract", "%s/%s/%s" % (short, name, p.split(":")[0][:50].replace(" ", "_")), "%s::%s violates its contract: %s" % (short, name, p), env.loc(key),
+                    slug = "result-shape" if p.startswith("result ") else p.split(":")[0][:50].replace(" ", "_")
+                    res.add("contract", "%s/%s/%s" % (short, name, slug), "%s::%s violates its contract: %s" % (short, name, p), env.loc(key),
                             {"result": repr(r)[:300]})
                 if len(samples) < 8 and not probs:
                     samples.append({"mutator": short, "method": name, "result_term": repr(r)[:160]})
